@@ -36,6 +36,10 @@ WireOnly == {"wire"}
 NoKinds == {}
 KindsC42 == {"native-transfer", "native-transfer-fail", "neovm-deploy", "neovm-storage-put", "neovm-badscript", "evm-transfer", "evm-create",
              "evm-call-log", "evm-msg-call", "evm-msg-create", "batch-atomic", "batch-plain"}
+DuringQuick == {"native-transfer", "evm-call-log", "evm-msg-call"}
+DuringAll == KindsC42 \ {"batch-atomic"}    \* the atomic batch takes the block-saving lock and cannot run inside a commit
+PointsQuick == {"staged", "evt"}
+PointsAll == {"staged", "blk", "evt", "st", "cur"}
 BothFresh == {TRUE, FALSE}
 OnlyFresh == {TRUE}
 
@@ -48,7 +52,7 @@ StateOut == [chain |-> Names(chain), hashAt |-> hashAt,
              fstart |-> fstart, stApplied |-> stApplied, evTx |-> evTx, evCur |-> evCur,
              memCur |-> memCur,
              hidx |-> [first |-> hidx.first, last |-> hidx.last, m |-> {<<x, hidx.m[x]>> : x \in DOMAIN hidx.m}],
-             bcache |-> {<<x, bcache[x]>> : x \in DOMAIN bcache}, fmem |-> fmem, fresh |-> fresh, halt |-> halt]
+             bcache |-> {<<x, bcache[x]>> : x \in DOMAIN bcache}, hcache |-> hcache, fmem |-> fmem, fresh |-> fresh, halt |-> halt]
 Edge == PrintT(<<"EDGE", ToJson([from |-> StateOut, act |-> act', to |-> StateOut'])>>)
 InitOut == (TLCGet("level") = 1) => /\ PrintT(<<"INIT", ToJson(StateOut)>>)
                                     /\ PrintT(<<"NOTE", ToJson([shapes |-> Shapes])>>)
